@@ -161,7 +161,7 @@ func hasCol(t *schema.Table, n string) bool {
 	return ok
 }
 
-func mkPlan(d *dialect, v int, scenario string) (*migrate.Plan, error) {
+func mkChanges(d *dialect, v int, scenario string) ([]schema.Change, error) {
 	var from *schema.Schema
 	to := mkSchema(d, v, nil)
 	switch scenario {
@@ -175,6 +175,14 @@ func mkPlan(d *dialect, v int, scenario string) (*migrate.Plan, error) {
 	changes, err := d.differ.SchemaDiff(from, to)
 	if err != nil {
 		return nil, fmt.Errorf("diff: %w", err)
+	}
+	return changes, nil
+}
+
+func mkPlan(d *dialect, v int, scenario string) (*migrate.Plan, error) {
+	changes, err := mkChanges(d, v, scenario)
+	if err != nil {
+		return nil, err
 	}
 	plan, err := d.planner.PlanChanges(context.Background(), "det_plan", changes)
 	if err != nil {
